@@ -214,6 +214,22 @@ M = [
     ('package-import-empty-fromlist', 'C10', 'pysmi/searcher/pypackage.py', "p = __import__(self._package, globals(), locals(), ['__init__'])", "p = __import__(self._package, globals(), locals(), [])"),
     ('mibcopy-repositories-first', 'C20', 'scripts/mibcopy.py', "        FileReader(mibDir, recursive=False, ignoreErrors=ignoreErrorsFlag),\n        *getReadersFromUrls(*mibSources)\n", "        *(getReadersFromUrls(*mibSources) + [FileReader(mibDir, recursive=False, ignoreErrors=ignoreErrorsFlag)])\n"),
     ('missing-name-reported-untouched', 'C09', C, "                if mibname not in processed:\n                    processed[mibname] = statusMissing\n", "                if mibname not in processed:\n                    processed[mibname] = statusUntouched\n"),
+    ('dsttemplate-option-key-misspelt', 'C20', C, "dstTemplate=options.get('dstTemplate'),", "dstTemplate=options.get('dstTemplate_'),"),
+    ('objecttype-nodetype-when-syntax-absent', 'C03', I, "        if syntax[0]:\n            nodetype = syntax[0] == 'Bits'", "        if not syntax[0]:\n            nodetype = syntax[0] == 'Bits'"),
+    ('augmention-when-absent', 'C06', I, "        if augmention:\n            augmention = self.transOpers(augmention)", "        if not augmention:\n            augmention = self.transOpers(augmention)"),
+    ('subtype-when-absent', 'C05', I, "        if subtype:\n            outDict['constraints'] = subtype\n\n        return 'scalar', outDict", "        if not subtype:\n            outDict['constraints'] = subtype\n\n        return 'scalar', outDict"),
+    ('defval-clause-cut-short', 'C05', I, "    def genDefVal(self, data, objname=None):\n        if not data:\n            return {}", "    def genDefVal(self, data, objname=None):\n        if data:\n            return {}"),
+    ('defval-unknown-label-silently-dropped', 'C05', I, "                raise error.PySmiSemanticError(\n                    'unknown type \"%s\" for defval \"%s\" of symbol \"%s\"' % (", "                return {}\n                raise error.PySmiSemanticError(\n                    'unknown type \"%s\" for defval \"%s\" of symbol \"%s\"' % ("),
+    ('symtable-objecttype-not-registered', 'C03', S, "                self.regSym(fakeName, fakeSymProps)\n\n        self.regSym(pysmiName, symProps, parents)", "                self.regSym(fakeName, fakeSymProps)\n"),
+    ('symtable-trap-oid-member-renamed', 'C03', S, "        symProps = {'type': 'NotificationType',\n                    'oid': enterprise + (0, value),", "        symProps = {'type': 'NotificationType',\n                    'objectid': enterprise + (0, value),"),
+    # ---- round 6
+    ('parse-text-tabs-expanded', 'C02', P, "        try:\n            ast = self.parser.parse(data, lexer=self.lexer.lexer)", "        data = data.expandtabs()\n\n        try:\n            ast = self.parser.parse(data, lexer=self.lexer.lexer)"),
+    ('uppercase-identifier-without-hyphen', 'C02', L, "        r'[A-Z][-a-zA-z0-9]*'", "        r'[A-Z][a-zA-z0-9]*'"),
+    ('notification-group-status-forced', 'C03', I, "    def genNotificationGroup(self, data):\n        name, objects, status, description, reference, oid = data\n", "    def genNotificationGroup(self, data):\n        name, objects, status, description, reference, oid = data\n        status = 'current'\n"),
+    ('augmented-row-name-lowercased', 'C06', I, "            augmention = self.transOpers(augmention)\n", "            augmention = self.transOpers(augmention.lower())\n"),
+    ('source-suffix-lowercased', 'C10', 'pysmi/searcher/pyfile.py', "        for pySfx in SOURCE_SUFFIXES:\n", "        for pySfx in SOURCE_SUFFIXES:\n            pySfx = pySfx.lower()\n"),
+    ('json-environment-keeps-trailing-newline', 'C04', J, "trim_blocks=True, lstrip_blocks=True)", "trim_blocks=True, lstrip_blocks=True,\n                                 keep_trailing_newline=True)"),
+    ('mibcopy-revision-only-valueerror', 'C20', 'scripts/mibcopy.py', "            except Exception:\n                revision = datetime.fromtimestamp(0)", "            except (ValueError, OverflowError):\n                revision = datetime.fromtimestamp(0)"),
 ]
 
 
